@@ -1,6 +1,7 @@
 package subrig
 
 import (
+	"sync/atomic"
 	"fmt"
 	"math/rand/v2"
 	"sort"
@@ -194,9 +195,9 @@ func HistorySignature(h *History) string {
 		}
 	}
 	for _, e := range h.Events {
-		ps = append(ps, pt{e.Call, 'e'})
-		if e.Ret != 0 {
-			ps = append(ps, pt{e.Ret, 'E'})
+		ps = append(ps, pt{atomic.LoadInt64(&e.Call), 'e'})
+		if ret := atomic.LoadInt64(&e.Ret); ret != 0 {
+			ps = append(ps, pt{ret, 'E'})
 		}
 	}
 	for _, i := range h.Instances {
